@@ -120,7 +120,13 @@ func c15Node(foreign, escAt int, escValue string) *apiv1.Node {
 	}
 	for slot := 0; slot < total; slot++ {
 		if slot == escAt {
-			n.Spec.Taints = append(n.Spec.Taints, apiv1.Taint{Key: ToBeRemovedByAutoscalerKey, Value: escValue, Effect: apiv1.TaintEffectNoSchedule})
+			esc := apiv1.Taint{Key: ToBeRemovedByAutoscalerKey, Value: escValue, Effect: apiv1.TaintEffectNoSchedule}
+			if verifChoice("escTimeAdded", 2) == 1 {
+				// what the API server stamps on NoExecute taints: a pointer, a different one in every copy of the object
+				esc.Effect = apiv1.TaintEffectNoExecute
+				esc.TimeAdded = &metav1.Time{Time: time.Unix(1500000100, 0)}
+			}
+			n.Spec.Taints = append(n.Spec.Taints, esc)
 			continue
 		}
 		ks := strconv.Itoa(k)
